@@ -131,6 +131,10 @@ func c10Drivers() []*icCfg {
 		{Name: "D1L-loaders-full-queue", O: q1, Loading: true, LoadCost: 1, Scripts: [][]icOp{{L(1), L(2)}, {C}}, Post: epiL},
 		{Name: "D1p-hybrid-promotions-full-queue", O: hOpts{MaxSize: 1, ChanSize: 1, BufSize: 1}, Hy: &hyIcCfg{Workers: 1, Prob: 1}, Pre: []icOp{S(1), W, S(2), W, S(3), W},
 			Scripts: [][]icOp{{{Kind: "hget", K: 1}, {Kind: "hget", K: 2}}, {C}}, Post: []icOp{{Kind: "est"}, G(1), S(3), {Kind: "len"}, W}},
+		// the loading flavour of the promotion, with a writer keeping the queue full and no Close to rescue anybody: a promotion
+		// that waits for room in the queue must not hold anything the policy goroutine needs to make room
+		{Name: "D1pL-hybrid-loading-promotions-full-queue", O: hOpts{MaxSize: 1, ChanSize: 1, BufSize: 1}, Hy: &hyIcCfg{Workers: 1, Prob: 1}, Loading: true, LoadCost: 1, Pre: []icOp{L(1), W, L(2), W, L(3), W},
+			Scripts: [][]icOp{{L(1), L(2)}, {S(4), S(5)}}, Post: []icOp{{Kind: "est"}, G(1), {Kind: "len"}, W}},
 		{Name: "D2-wait-vs-close", O: q2, Scripts: [][]icOp{{S(1), W}, {C}}, Post: epi},
 		{Name: "D2b-close-then-wait", O: q2, Pre: []icOp{S(1)}, Scripts: [][]icOp{{C, W}, {W}}, Post: epi},
 		{Name: "D3-readers", O: q2, Pre: []icOp{S(1), S(2)}, Scripts: [][]icOp{{G(1), {Kind: "range"}}, {{Kind: "len"}, D(2)}, {C}}, Post: epi},
